@@ -74,6 +74,15 @@ def _call(g, req, rel):
         return t.spline(seq(req["controls"]))
     if shape == "polyline":
         return t.polyline(seq(req["controls"]))
+    if shape == "parametric":
+        # a user curve in ABSOLUTE work coordinates (the API's meaning in both distance modes); f(0) need not be where the tool is
+        import numpy as np
+        c, a, b, k, h = req["pc"], req["pa"], req["pb"], req["pk"], req["ph"]
+
+        def curve(thetas):
+            return np.column_stack((c[0] + a * np.cos(2 * np.pi * k * thetas), c[1] + b * np.sin(2 * np.pi * k * thetas),
+                                    c[2] + h * thetas))
+        return t.parametric(curve, req["len"])
     raise KeyError(shape)
 
 
@@ -131,7 +140,7 @@ def pt(rng, lo=-40, hi=40):
 
 
 def gen(rng, shape=None):
-    shape = shape or rng.choice(["arc", "arc", "arc_radius", "circle", "helix", "spiral", "thread", "spline", "polyline"])
+    shape = shape or rng.choice(["arc", "arc", "arc_radius", "circle", "helix", "spiral", "thread", "spline", "polyline", "parametric"])
     res = rng.choice([0.5, 1.0, 2.0])
     ccw = rng.random() < 0.5
     s = pt(rng) if rng.random() < 0.85 else [0.0, 0.0, 0.0]
@@ -177,6 +186,18 @@ def gen(rng, shape=None):
         a1 = a0 + sgn * rng.uniform(0.2, 2 * math.pi - 0.2)
         t = [c[0] + r1 * math.cos(a1), c[1] + r1 * math.sin(a1), s[2] + rng.uniform(-8, 8)]
         req.update(target=t, center=c, centers=[c], r=r0, turns=rng.choice([1, 1, 2, 3]), far=True)
+    elif shape == "parametric":
+        # an elliptic / Lissajous-like user curve given in absolute coordinates, starting at or away from the tool position
+        a, b = rng.uniform(5 * res, 25), rng.uniform(5 * res, 25)
+        k = rng.choice([0.25, 0.5, 0.75, 1.0])
+        h = rng.choice([0.0, 0.0, rng.uniform(-6, 6)])
+        on_curve = rng.random() < 0.4
+        c = [s[0] - a, s[1], s[2]] if on_curve else [s[0] + rng.uniform(-15, 15), s[1] + rng.uniform(-15, 15), s[2] + rng.choice([0.0, 2.0])]
+        t = [c[0] + a * math.cos(2 * math.pi * k), c[1] + b * math.sin(2 * math.pi * k), c[2] + h]
+        n = 400
+        pts = [(c[0] + a * math.cos(2 * math.pi * k * i / n), c[1] + b * math.sin(2 * math.pi * k * i / n), c[2] + h * i / n) for i in range(n + 1)]
+        ln = sum(math.dist(pts[i], pts[i + 1]) for i in range(n))
+        req.update(target=t, center=c, centers=[c], r=0.0, pc=c, pa=a, pb=b, pk=k, ph=h, len=ln, far=False)
     elif shape == "spiral":
         r1 = rng.uniform(6 * res, 30)
         a1 = rng.uniform(-math.pi, math.pi)
